@@ -231,6 +231,7 @@ func Ok_ClosureArg() int {
 	x := 1
 	y := 5
 	runIt(func() { x = 2 })
+	_ = x
 	return y
 }
 
